@@ -416,6 +416,18 @@ async fn run(case: Json, tol: Tolerate) -> Outcome {
                                 }
                             }
                         }
+                        // independent of the codec on both ends: the source announces next hops from two
+                        // small ranges only (a codec that mangles a next hop symmetrically would otherwise
+                        // agree with itself)
+                        let known = match best.nexthop {
+                            Some(bgp::Nexthop::V4(a)) => a.octets()[..3] == [192, 0, 2],
+                            Some(bgp::Nexthop::V6(a)) => a.segments()[..3] == [0x2001, 0xdb8, 0xffff],
+                            Some(bgp::Nexthop::V6LinkLocal(..)) => false,
+                            None => true,
+                        };
+                        if !known {
+                            fail!("routes/next-hop-in-rib-is-not-one-the-source-announced", "op {} {}: {:?} has next hop {:?}", opi, op.to_compact(), c.net, best.nexthop);
+                        }
                         expected.insert((fam_key(*f), route_key(&c.net)), (cn, best.nexthop, size));
                     }
                 }
